@@ -486,8 +486,9 @@ type FnContract struct {
 	Asserts     []CallAssert // reserved
 	Covers      []Clause
 	Captures    []Capture
-	Instances   []Clause // bounded stand-ins: extra entry assumptions fixing some parameters (label = instance name)
-	Props       []string // property ids this contract serves (informational)
+	Callbacks   map[string][]ModItem // assumed frame of calls through a function-typed parameter (trusted): name -> modifies items over callarg0..n
+	Instances   []Clause             // bounded stand-ins: extra entry assumptions fixing some parameters (label = instance name)
+	Props       []string             // property ids this contract serves (informational)
 	Used        bool
 }
 
@@ -544,7 +545,7 @@ type UFDecl struct {
 var clauseKeywords = map[string]bool{
 	"func": true, "extern": true, "interface": true, "requires": true, "ensures": true, "let": true,
 	"modifies": true, "nopanic": true, "pure": true, "pureheap": true, "loop": true, "at": true, "ghost": true,
-	"define": true, "lemma": true, "const_global": true, "capture": true, "instance": true, "ghost_ensures": true, "cover": true, "props": true, "uf": true, "params": true,
+	"define": true, "lemma": true, "const_global": true, "capture": true, "instance": true, "callback": true, "ghost_ensures": true, "cover": true, "props": true, "uf": true, "params": true,
 }
 
 // parseContractFile reads the //@ lines of one file.
@@ -699,6 +700,20 @@ func (cs *Contracts) parseContractFile(path string, pkg string) error {
 			cur.HasMod = true
 			cur.ModAll = cur.ModAll || all
 			cur.Modifies = append(cur.Modifies, items...)
+		case "callback":
+			// callback <name> modifies <items over callarg0..n>
+			if len(fs) < 4 || fs[2] != "modifies" {
+				return fail(fmt.Errorf("bad callback clause (callback <name> modifies <items>)"))
+			}
+			k := strings.Index(rest, "modifies")
+			items, _, err := parseModifies(strings.TrimSpace(rest[k+len("modifies"):]))
+			if err != nil {
+				return fail(err)
+			}
+			if cur.Callbacks == nil {
+				cur.Callbacks = map[string][]ModItem{}
+			}
+			cur.Callbacks[fs[1]] = items
 		case "instance":
 			c, err := labelled(rest)
 			if err != nil {
